@@ -251,6 +251,27 @@ pub fn classify(op: &Op, names: &Names) -> Option<Action> {
         };
         return Some(Action { sender: from.clone(), act, attached: funds.clone(), via_hook: false });
     }
+    // a contract account acting for itself: `forward` to the market / registry / a token contract is judged
+    // as that inner message sent by the contract account (with the coins it forwards)
+    if *to == names.hostile && key == "forward" && funds.is_empty() {
+        let inner_to = body.get("contract").and_then(|c| c.as_str());
+        let inner_msg = body.get("msg").and_then(|m| m.as_str()).and_then(unb64);
+        let inner_funds: Option<Vec<Fund>> = body.get("funds").and_then(|f| f.as_array()).map(|a| {
+            a.iter()
+                .filter_map(|c| {
+                    Some(Fund { denom: c.get("denom")?.as_str()?.to_string(), amount: c.get("amount")?.as_str()?.parse().ok()? })
+                })
+                .collect()
+        });
+        if let (Some(t), Some(m), Some(f)) = (inner_to, inner_msg, inner_funds) {
+            let is_receive = m.as_object().map_or(false, |o| o.contains_key("receive") || o.contains_key("receive_nft"));
+            if t != names.hostile && !is_receive {
+                let inner = Op::Tx { from: names.hostile.clone(), to: t.to_string(), msg: m, funds: f, fail_msg: None, fail_query: None };
+                return classify(&inner, names);
+            }
+        }
+        return unknown();
+    }
     let is20 = names.is_cw20(to);
     let is721 = names.is_coll(to);
     if (is20 || is721) && funds.is_empty() {
